@@ -8,6 +8,7 @@ import Ucfg.Model.Ops
 import Ucfg.Spec.C03
 import Ucfg.Model.Flag
 import Ucfg.Model.Eval
+import Ucfg.Model.Frontends
 /-
   ucfgdrv: reads one protocol case per line on stdin, runs the Lean model's
   executable definitions on it and prints one JSON result line.
@@ -902,7 +903,28 @@ def runFull (std : Stdlib) (c : Json) : R (Json × Option Json × Option String)
     let c' := c'.setObjVal! "impl" ((optField impl "twin").getD .null)
     let (m, o, _) ← runUnpack std c'
     pure (Json.mkObj [("twin", m)], o, none)
-  | "load" | "frontends" => pure (Json.mkObj [("unmodelled", .bool true)], none, none)
+  | "load" => pure (Json.mkObj [("unmodelled", .bool true)], none, none)
+  | "frontends" => do
+    -- C18: the decoded document in the number representation of yaml.v2 and of encoding/json / hjson-go
+    let o ← getOpts c "opts"
+    let d ← parseGoData ((optField c "doc").getD .null)
+    let ty? ← match optField c "ty" with
+      | some .null | none => pure none
+      | some tj => do pure (some (← parseTy tj))
+    let side (dd : GoData) : R Json := do
+      match newFrom o dd with
+      | .ok cfg =>
+        let vw ← readE std cfg o (Json.mkObj [("r", "view")])
+        let typed := match ty? with
+          | none => Json.null
+          | some ty => match unpack std o ty (zeroOf ty) cfg with
+            | .ok v => Json.mkObj [("ok", goValJson v)]
+            | .err e => Json.mkObj [("err", Json.mkObj [("reason", .str e.reason.name)])]
+            | .panic s => Json.mkObj [("panic", .str s)]
+            | .fuel => Json.mkObj [("fuel", .bool true)]
+        pure (Json.mkObj [("view", vw), ("typed", typed)])
+      | r => pure (Json.mkObj [("load", errKindJson r)])
+    pure (Json.mkObj [("yaml", ← side d), ("json", ← side (jsonFlavour d))], none, none)
   | _ => do pure ((← runCase std c), none, none)
 
 partial def loop (std : Stdlib) (h : IO.FS.Stream) (out : IO.FS.Stream) : IO Unit := do
